@@ -184,6 +184,7 @@ type exprGen struct {
 	info *setInfo
 	set  *sampleSet
 	hint *series // the query time was chosen for this series: selectors prefer to select it
+	multi bool   // selectors prefer to match several metric names (under a `without` aggregation)
 }
 
 func (g *exprGen) pick(xs []string) string { return xs[g.r.Intn(len(xs))] }
@@ -226,7 +227,7 @@ func (g *exprGen) genSelector() *selector {
 			}
 		}
 	}
-	if !hinted && g.r.Chance(8) && len(g.info.names) > 1 {
+	if !hinted && (g.r.Chance(8) || (g.multi && g.r.Chance(60))) && len(g.info.names) > 1 {
 		// a regex on the metric name
 		s.matchers = append(s.matchers, matcher{label: "__name__", kind: "re", re: &rx{kind: "alt", a: &rx{kind: "lit", s: g.info.names[0]}, b: &rx{kind: "lit", s: g.info.names[1]}}})
 	} else {
@@ -379,7 +380,14 @@ func (g *exprGen) genVector(t int64, depth int) expr {
 		}
 		return g.genRangeFn(t)
 	case x < 60:
-		return &aggExpr{op: g.pick([]string{"sum", "avg", "min", "max", "count"}), without: g.r.Chance(40), labels: g.genLabels(), e: g.genVector(t, depth-1)}
+		a := &aggExpr{op: g.pick([]string{"sum", "avg", "min", "max", "count"}), without: g.r.Chance(40), labels: g.genLabels()}
+		if a.without && g.r.Chance(35) {
+			// series of several metrics that agree on the remaining labels fall into one group
+			g.multi = true
+		}
+		a.e = g.genVector(t, depth-1)
+		g.multi = false
+		return a
 	default:
 		return g.genBin(t, depth-1)
 	}
